@@ -21,7 +21,7 @@ Proof. intros. eapply gap_write; eassumption. Qed.
 
 Theorem C02_gap_at : forall s v f c d k i m b off,
   hd_name f <> [] -> hd_node f = Some c -> get (f_heap s) c = Some (NFile d k i m) ->
-  has (hd_mode f) OpenWrite = true -> zlen d <= off -> b <> [] ->
+  has (hd_mode f) OpenWrite = true -> has (hd_mode f) OpenAppend = false -> zlen d <= off -> b <> [] ->
   f_write_at s v f b off =
     (with_heap s (upd (f_heap s) c (NFile (d ++ zeros (Z.to_nat off - length d) ++ b) k i m)), RInt (zlen b)).
 Proof. intros. eapply gap_write_at; eassumption. Qed.
@@ -48,7 +48,7 @@ Theorem C02_write_nothing : forall s v f c d k i m,
   exists r, f_write s v f [] = (s, f, r) /\ (forall off, exists r', f_write_at s v f [] off = (s, r')).
 Proof.
   intros s v f c d k i m Hn Hc Hg. eexists. split; [eapply f_write_nil; eassumption|].
-  intros off. unfold f_write_at. destruct (Z.ltb off 0); eauto.
+  intros off. unfold f_write_at. destruct (has (hd_mode f) OpenAppend); [eauto|]. destruct (Z.ltb off 0); eauto.
 Qed.
 
 (* ---- "O_APPEND writes land at the current end" ------------------------------------------------ *)
@@ -84,7 +84,8 @@ Proof. intros. eapply no_write_no_change; eassumption. Qed.
 
 (* ---- "any call on a closed handle fails with a closed-file error and no effect" ---------------- *)
 (* no effect: always.  closed-file error: always, except - exactly as os.File - that ReadAt and WriteAt refuse a
-   negative offset first and return (0, nil) for an empty buffer without looking at the handle. *)
+   negative offset first and return (0, nil) for an empty buffer without looking at the handle, and that WriteAt
+   on an O_APPEND handle is refused before anything else. *)
 Theorem C02_closed : forall s v f,
   hd_name f <> [] -> hd_node f = None -> win v = false ->
   (forall n, f_read s v f n = (f, RFail EG_Closed))
@@ -92,7 +93,8 @@ Theorem C02_closed : forall s v f,
         if Z.ltb off 0 then RFail EG_NegativeOffset else if Z.leb n 0 then RBytes 0 [] None else RFail EG_Closed)
   /\ (forall b, f_write s v f b = (s, f, RFail EG_Closed))
   /\ (forall b off, f_write_at s v f b off =
-        (s, if Z.ltb off 0 then RFail EG_NegativeOffset else match b with [] => RInt 0 | _ => RFail EG_Closed end))
+        (s, if has (hd_mode f) OpenAppend then RFail EG_WriteAtInAppendMode
+            else if Z.ltb off 0 then RFail EG_NegativeOffset else match b with [] => RInt 0 | _ => RFail EG_Closed end))
   /\ (forall off wh, f_seek s v f off wh = (f, RFail EG_Closed))
   /\ (forall size, f_truncate s v f size = (s, RFail EG_Closed))
   /\ f_stat s v f = RFail EG_FileClosing
@@ -198,13 +200,7 @@ Example C02_history_example :
       S_Ok; S_Err X_Closed; S_Int 0].
 Proof. vm_compute. auto. Qed.
 
-(* ---- the classified deviation is real ---------------------------------------------------------------- *)
 Definition differ (ops : list fop) : Prop := impl_results ops <> spec_results ops.
-
-Definition wit_write_at_append : list fop := [Open NAME_A 1090 420; WriteAt 0 [120]%N 0].
-Example KfWriteAtAppend_refuted :
-  first_kf empty_state wit_write_at_append 0 = Some (1%nat, KfWriteAtAppend) /\ differ wit_write_at_append.
-Proof. split; [vm_compute; reflexivity|]. unfold differ. vm_compute. congruence. Qed.
 
 (* ---- the deviations repaired in /repo: implementation and specification now agree on their witnesses ---- *)
 Definition repaired_witnesses : list (list fop) :=
@@ -212,7 +208,8 @@ Definition repaired_witnesses : list (list fop) :=
     [Open NAME_A 66 420; Read 0 0; ReadAt 0 0 5; ReadAt 0 0 (-1)];                             (* empty-buffer reads *)
     [Open NAME_A 66 420; Seek 0 7 0; Write 0 []; Fstat 0; WriteAt 0 [] 9; Fstat 0];             (* zero-byte writes *)
     [Open NAME_A 66 420; Close 0; Ftruncate 0 (-1); ReadAt 0 2 (-1); ReadAt 0 0 0; WriteAt 0 [] 3];   (* closed-handle priority *)
-    wit_unlink ].
+    wit_unlink;
+    [Open NAME_A 1090 420; WriteAt 0 [120]%N 0; WriteAt 0 [] (-1); Close 0; WriteAt 0 [120]%N 0; Fstat 0] ].   (* WriteAt on O_APPEND *)
 Example C02_repaired_agree : forallb (fun ops => match first_kf empty_state ops 0 with None => true | Some _ => false end)
                                repaired_witnesses = true
   /\ map impl_results repaired_witnesses = map spec_results repaired_witnesses.
